@@ -41,7 +41,7 @@ SPEC = {
                      'both with and without an executing thread; '
                      'non-trivial = a complete event was fired'),
     'C06': dict(manual=[(['values', 'gen', 'call', 'flags', 'chan'], 600), (['values', 'gen', 'call', 'prio', 'stop'], 240)],
-                run=[(['values', 'gen', 'call', 'timeout', 'flags'], 210)],
+                run=[(['values', 'gen', 'call', 'timeout', 'flags'], 210)], sharedwait_patterns=120,
                 kinds={'F', 'D', 'I', 'P', 'R', 'T'}, opts=dict(values=True, residue=True), extra=('C04',),
                 nontrivial=lambda w: any(e[0] in 'RT' for e in w.log),
                 rule='acyclic programs of handlers that return / yield / call() / wait() (by object and by name, sequential and '
@@ -83,6 +83,8 @@ def scenarios(ctx, prop):
         out.append(core_gen.gen_multichan_pattern(ctx.rng))
     for _ in range(sp.get('stop_patterns', 0) * ctx.scale):
         out.append(core_gen.gen_stop_pattern(ctx.rng))
+    for _ in range(sp.get('sharedwait_patterns', 0) * ctx.scale):
+        out.append(core_gen.gen_shared_wait_pattern(ctx.rng))
     for feats, n in sp['run']:
         for _ in range(max(1, n * ctx.scale // (1 if ctx.scale == 1 else 2))):
             out.append(core_gen.gen_run_scenario(ctx.rng, feats))
